@@ -149,6 +149,24 @@ def _g2(ctx: Context) -> None:
     ]
     for name, edges in gates:
         ctx.must_pass("C03.G2", cfg, ret, name, edges, desc=f"part2 returns pairing data only after: {name}")
+    # the gate's method is the exact comparison (its formula is C02's subject; its acceptance condition is this property's)
+    from . import c02
+
+    T2 = c02._terms(ctx)
+    for q, want_desc in ((f"{c02.CLI}.verify_servers_proof_bytes", "verify_servers_proof(int(M bytes))"), (f"{c02.CLI}.verify_servers_proof", "int(H(A_b | M1 | K)) == M")):
+        g = ctx.func(q)
+        gcfg = ctx.cfg(q)
+        rets_g = [n for n in gcfg.nodes if n.kind == "return" and n.exprs]
+        got = [strip_sites(T2.of(gcfg, n, n.exprs[0])) for n in rets_g]
+        K_ = c02.meth("get_session_key_bytes")
+        if q.endswith("_bytes"):
+            wants = [c02.meth("verify_servers_proof", c02.big(("param", g.pos_params[1])))]
+        else:
+            acc = c02.big(c02.meth("digest", c02.S("A_b"), c02.meth("get_proof_bytes"), K_))
+            wants = [("cmp", ("Eq",), (acc, ("param", g.pos_params[1]))), ("cmp", ("Eq",), (("param", g.pos_params[1]), acc))]
+        ck.check("C03.G2", len(got) == 1 and got[0] in wants, f"the accessory-proof gate is the exact comparison: {want_desc}", f"{ctx.fkey(g)}:proof-gate-exact",
+                 f"{g.name} accepts {[show(x, 200) for x in got]}: the M4 gate must accept exactly the correct proof (a suffix/prefix/length-tolerant comparison accepts proofs "
+                 "from a peer that does not know the setup code)", g.loc())
     # M5 (which reveals the controller's long-term key) is sent only after the accessory proved knowledge of the code
     p = cfg.find_path(cfg.entry.id, ys[1][1].id, avoid_edges=proof_edges)
     ck.check("C03.G2", p is None, "M5 is sent only after the accessory's SRP proof verified", f"{ctx.fkey(f)}:m5-before-proof",
